@@ -205,7 +205,7 @@ func NewWorld(src *choice.Source, cfg Config) *World {
 		syncVC: map[any][]uint32{}, chans: map[any]*chanReg{}}
 	w.Stats.Faults = map[string]int{}
 	w.Stats.Probes = map[string]int{}
-	w.FS.Clock = func() int { return w.Step }
+	w.FS.Clock = func() int { return w.Step + int(w.now/time.Millisecond) }
 	w.H = &Task{ID: 0, Name: "harness", VC: []uint32{1}}
 	w.nextID = 1
 	w.direct = w.NewProc("harness", memfs.Cred{})
